@@ -299,7 +299,7 @@ class VersionCsvExporter:
                         value = value.decode(UTF_8, "replace").encode(UTF_8)
                     if not isinstance(value, str):
                         value = value.decode(UTF_8)
-                    if value[0] == "=":
+                    if value.startswith("="):
                         value = " " + value
                     value = sub(ILLEGAL_XML_CHARACTER_PATTERN, " ", value)
                 cell_record_column_values.append(value)
@@ -491,7 +491,7 @@ class VersionCsvExporter:
                         value = value.decode(UTF_8, "replace").encode(UTF_8)
                     if not isinstance(value, str):
                         value = value.decode(UTF_8)
-                    if value[0] == "=":
+                    if value.startswith("="):
                         value = " " + value
                     value = sub(ILLEGAL_XML_CHARACTER_PATTERN, " ", value)
                 cell_record_column_values.append(value)
@@ -569,7 +569,7 @@ class VersionCsvExporter:
                         value = value.decode(UTF_8, "replace").encode(UTF_8)
                     if not isinstance(value, str):
                         value = value.decode(UTF_8)
-                    if value[0] == "=":
+                    if value.startswith("="):
                         value = " " + value
                     value = sub(ILLEGAL_XML_CHARACTER_PATTERN, " ", value)
                 cell_record_column_values.append(value)
@@ -917,7 +917,7 @@ class CommitCsvExporter:
                         value = value.decode(UTF_8, "replace").encode(UTF_8)
                     if not isinstance(value, str):
                         value = value.decode(UTF_8)
-                    if value[0] == "=":
+                    if value.startswith("="):
                         value = " " + value
                     value = sub(ILLEGAL_XML_CHARACTER_PATTERN, " ", value)
                 cell_record_column_values.append(value)
